@@ -1610,6 +1610,12 @@ def w14(e: Engine, rep: Report):
                         v = getattr(mod, 'globals', {}).get(x.id)
                         return isinstance(v, ast.Call) and \
                             ast.unparse(v.func) == 'object'
+                    if isinstance(x, ast.Attribute) and \
+                            isinstance(x.value, ast.Name) and \
+                            x.value.id in ('self', 'cls'):
+                        _, v = e.p.lookup_class_attr(IOC, x.attr)
+                        return isinstance(v, ast.Call) and \
+                            ast.unparse(v.func) == 'object'
                     return False
                 n += 1
                 rep.evaluations += 1
